@@ -112,7 +112,8 @@ def behaviour_c13(rng):
     locked = rng.sample([1, 2, 3], rng.choice([1, 3])) if rng.random() < 0.3 else []
     if short["id"] and fmt == "pretty":
         fmt = "full"       # (pretty records contain newlines: the chunks of a short-writing sink could not be re-assembled)
-    return {"src": "random-c13", "format": fmt, "opts": opts, "opts_first": rng.random() < 0.4,
+    # front end: the fmt::subscriber() layer on a registry, or the fmt() collector builder (own option forwarding, own Collect impl)
+    return {"src": "random-c13", "format": fmt, "opts": opts, "opts_first": rng.random() < 0.4, "front": rng.choice(["layer", "layer", "builder"]),
             "writer": {"shape": shape, "params": params, "failing": failing, "short": short, "locked": locked},
             "steps": steps_c13(rng, 40, nth)}
 
